@@ -89,6 +89,7 @@ type coreRun struct {
 	inPass        map[string]string
 	ticks         int
 	curOp         map[string]string
+	curObj        map[string]int
 	rootDone      bool
 	rcloseBy      string
 	rcloseN       int
@@ -190,7 +191,10 @@ func (r *coreRun) reporterCall(kind, name string, tags map[string]string, i int6
 		r.rcloseN++
 		r.log(M{"e": "rclose", "t": t})
 	case "alloc":
-		r.log(M{"e": "alloc", "t": t, "k": name, "id": renderID(tags["\x00name"], stripName(tags))})
+		r.mu.Lock()
+		o := r.curObj[t]
+		r.mu.Unlock()
+		r.log(M{"e": "alloc", "t": t, "k": name, "id": renderID(tags["\x00name"], stripName(tags)), "o": o})
 	}
 }
 
@@ -387,6 +391,10 @@ func (r *coreRun) runThread(ts ThreadSpec) {
 		}
 	}()
 	hs := map[string]*scopeInfo{"root": {s: r.root, obj: r.objID(r.root)}}
+	// metric handles this thread obtained with "get": later operations of the thread on that metric go through the
+	// handle it holds (what an application that keeps its handles does), not through a new lookup by name
+	held := map[string]interface{}{}
+	hk := func(op Op, kind string) string { return op.H + "\x00" + op.M + "\x00" + kind }
 	for _, op := range ts.Ops {
 		r.s.Yield("op_" + op.Op)
 		r.mu.Lock()
@@ -395,6 +403,11 @@ func (r *coreRun) runThread(ts ThreadSpec) {
 		h := hs[op.H]
 		if h == nil && op.H != "" && op.Op != "sub" {
 			h = hs["root"]
+		}
+		if h != nil {
+			r.mu.Lock()
+			r.curObj[ts.Name] = h.obj // the scope object this thread's operation is made on
+			r.mu.Unlock()
 		}
 		switch op.Op {
 		case "sub":
@@ -422,23 +435,35 @@ func (r *coreRun) runThread(ts ThreadSpec) {
 			hs[op.H] = ni
 			r.log(M{"e": "subret", "t": ts.Name, "o": ni.obj, "id": renderID(ni.prefix, ni.tags), "inert": ni.inert})
 		case "inc":
-			c := h.s.Counter(op.M)
+			c, ok := held[hk(op, "counter")].(tally.Counter)
+			if !ok {
+				c = h.s.Counter(op.M)
+			}
 			c.Inc(r.concrete(op.V))
 			r.log(M{"e": "inc", "t": ts.Name, "id": renderID(qualify(h.prefix, r.nm(op.M)), h.tags), "o": h.obj, "v": op.V, "inert": h.inert})
 		case "upd":
-			g := h.s.Gauge(op.M)
+			g, ok := held[hk(op, "gauge")].(tally.Gauge)
+			if !ok {
+				g = h.s.Gauge(op.M)
+			}
 			id := renderID(qualify(h.prefix, r.nm(op.M)), h.tags)
 			r.log(M{"e": "updcall", "t": ts.Name, "id": id, "v": int(op.V)})
 			g.Update(math.Float64frombits(r.gtab[op.V]))
 			r.log(M{"e": "updret", "t": ts.Name, "id": id})
 		case "rec":
-			tm := h.s.Timer(op.M)
+			tm, ok := held[hk(op, "timer")].(tally.Timer)
+			if !ok {
+				tm = h.s.Timer(op.M)
+			}
 			id := renderID(qualify(h.prefix, r.nm(op.M)), h.tags)
 			r.log(M{"e": "timercall", "t": ts.Name, "id": id, "v": int(op.V), "inert": h.inert})
 			tm.Record(timerTable[op.V])
 			r.log(M{"e": "timerret", "t": ts.Name})
 		case "hrec":
-			hg := h.s.Histogram(op.M, coreBuckets)
+			hg, ok := held[hk(op, "histogram")].(tally.Histogram)
+			if !ok {
+				hg = h.s.Histogram(op.M, coreBuckets)
+			}
 			hg.RecordValue(float64(op.V))
 			up := math.MaxFloat64
 			for _, b := range coreBuckets {
@@ -482,6 +507,9 @@ func (r *coreRun) runThread(ts ThreadSpec) {
 			case "scope":
 				x = h.s.SubScope(op.M)
 			}
+			if op.K != "scope" {
+				held[hk(op, op.K)] = x
+			}
 			r.log(M{"e": "got", "t": ts.Name, "k": op.K, "id": renderID(qualify(h.prefix, r.nm(op.M)), h.tags), "so": h.obj, "obj": r.metricObj(x)})
 		case "close":
 			r.log(M{"e": "closecall", "t": ts.Name, "o": h.obj})
@@ -505,7 +533,7 @@ func (r *coreRun) runThread(ts ThreadSpec) {
 
 // newCoreRun builds the root scope and threads of one execution.
 func newCoreRun(sc *Scenario, withSched bool) *coreRun {
-	r := &coreRun{sc: sc, objIDs: map[tally.Scope]int{}, mobj: map[interface{}]int{}, passN: map[string]int{}, inPass: map[string]string{}, curOp: map[string]string{}}
+	r := &coreRun{sc: sc, objIDs: map[tally.Scope]int{}, mobj: map[interface{}]int{}, passN: map[string]int{}, inPass: map[string]string{}, curOp: map[string]string{}, curObj: map[string]int{}}
 	r.gtab = gaugeTables[sc.Gauge]
 	if r.gtab == nil {
 		r.gtab = gaugeTables["plain"]
